@@ -37,8 +37,8 @@ def ntoa (v : Nat) : List Char :=
 
 /-- glibc `inet_pton4` octet rule: 1-3 decimal digits, no leading zero unless "0", value ≤ 255 -/
 def octet (t : List Char) : Option Nat :=
-  if 1 ≤ t.length ∧ t.length ≤ 3 ∧ t.all Char.isDigit ∧ (t.length = 1 ∨ t.head? ≠ some '0') then
-    let v := Nat.ofDigitChars 10 t 0
+  if 1 ≤ t.length ∧ t.length ≤ 3 ∧ t.all isDec ∧ (t.length = 1 ∨ t.head? ≠ some '0') then
+    let v := ofBase 10 t
     if v ≤ 255 then some v else none
   else none
 
